@@ -333,6 +333,16 @@ var charsetParam = regexp.MustCompile(`(?i)charset="?([^";\s]+)`)
 // input text (apart from line-end normalisation), and Body() gives the text back. (A declared
 // character set other than ISO-8859-1 / UTF-8 is counted, not judged; a refusal is not a violation.)
 func evalCharset(c *ctx, cs, text string) {
+	evalCharsetOn(c, cs, text, "")
+}
+
+// priorContentTypes: what a message may already carry when its body is set (a received message that is
+// edited, a caller who filled in the header): the new body must still be consistent with what the
+// message declares afterwards.
+var priorContentTypes = []string{"text/plain; charset=UTF-8", "text/plain; charset=utf-8; format=flowed", "text/html; charset=windows-1252", "text/plain", "text/plain; charset=ISO-8859-1", "TEXT/PLAIN; CHARSET=\"UTF-8\"", "application/octet-stream"}
+
+// evalCharsetOn: prior != "" sets a Content-Type header before the body is set; cs == "<SetBody>" uses SetBody.
+func evalCharsetOn(c *ctx, cs, text, prior string) {
 	o := c.o
 	o.Evals++
 	var (
@@ -345,7 +355,16 @@ func evalCharset(c *ctx, cs, text string) {
 	if vrt.Guard(o, func() {
 		m = &fbb.Message{Header: fbb.Header{}}
 		m.Header.Set("Mid", "C18CHARSET")
-		if setErr = m.SetBodyWithCharset(cs, text); setErr == nil {
+		if prior != "" {
+			m.Header.Set("Content-Type", prior)
+			m.Header.Set("Content-Transfer-Encoding", "8bit")
+		}
+		if cs == "<SetBody>" {
+			setErr = m.SetBody(text)
+		} else {
+			setErr = m.SetBodyWithCharset(cs, text)
+		}
+		if setErr == nil {
 			var err error
 			if wire, err = m.Bytes(); err != nil {
 				panic("Bytes() failed after SetBodyWithCharset: " + err.Error())
@@ -393,7 +412,7 @@ func evalCharset(c *ctx, cs, text string) {
 		c.violate("charset:body-accessor", text, "SetBodyWithCharset(%q): Body() (err %v) does not give the text back: %q...", cs, bodyErr, bodyStr[:min(len(bodyStr), 40)])
 	}
 	h := fnv.New64a()
-	h.Write([]byte(cs + "|" + text))
+	h.Write([]byte(cs + "|" + prior + "|" + text))
 	o.Sig("cs%016x", h.Sum64())
 }
 
@@ -503,7 +522,10 @@ func runFixed(c *ctx) {
 		for _, cs := range charsetNames {
 			evalCharset(c, cs, t)
 		}
-		_ = i
+		for _, prior := range priorContentTypes {
+			evalCharsetOn(c, "<SetBody>", t, prior)
+			evalCharsetOn(c, charsetNames[i%len(charsetNames)], t, prior)
+		}
 	}
 	c.o.Sample = map[string]any{"kind": "fixed", "texts": len(texts)}
 }
